@@ -46,6 +46,7 @@ func checkC03(w *World, r *Result) {
 	if _, n := constExactRule(w, r, func(rel string) bool { return rel == "generator/typescript" || rel == "generator" }); n < 1 {
 		Undecided("CONST-EXACT: fewer enum value renderings than confirmed by hand")
 	}
+	descentDominatesReturns(w, r, "generator/typescript")
 	genIDAccumulation(w, r)
 	genIDRule(w, r, "generator")
 	if nsPkgRule(w, r, "generator/typescript.typeName") < 1 {
